@@ -15,7 +15,7 @@ import (
 // ---- C11: Group/Combo/Routes/Any/AutoHead equal their flat expansion (engine E over programs) ----
 
 type c11Node struct {
-	Kind     string    `json:"kind"` // group | get | post | routes-comma | routes-multi | any | combo | combo-spare | combo-dup | autohead-on | autohead-off
+	Kind     string    `json:"kind"` // group | get | post | routes-comma | routes-multi | any | combo | combo-spare | combo-dup | combo-toggle-head | autohead-on | autohead-off
 	Path     string    `json:"path,omitempty"`
 	NH       int       `json:"handlers,omitempty"`
 	Children []c11Node `json:"children,omitempty"`
@@ -179,6 +179,19 @@ func c11Exec(w *c11World, prog []c11Node) (flat []c11Flat, mustReject bool, ambi
 					flat = append(flat, c11Flat{Method: "POST", Path: prefix + n.Path, IDs: all})
 					w.f.Combo(n.Path, w.hs(common)...).Post(w.hs(own)...)
 				}
+			case "combo-toggle-head":
+				// GET on a Combo while AutoHead is off, AutoHead switched on, then HEAD on the same Combo (the
+				// setting the program had is restored afterwards): GET and HEAD with handlers of their own
+				common := ids(n.NH)
+				g, h := ids(1), ids(1)
+				base := append(append([]int{}, outer...), common...)
+				flat = append(flat, c11Flat{Method: "GET", Path: prefix + n.Path, IDs: append(append([]int{}, base...), g...)},
+					c11Flat{Method: "HEAD", Path: prefix + n.Path, IDs: append(append([]int{}, base...), h...)})
+				w.f.AutoHead(false)
+				cb := w.f.Combo(n.Path, w.hs(common)...).Get(w.hs(g)...)
+				w.f.AutoHead(true)
+				cb.Head(w.hs(h)...)
+				w.f.AutoHead(autoHead)
 			case "combo", "combo-spare", "combo-dup":
 				common := ids(n.NH)
 				g, p := ids(1), ids(1)
@@ -424,6 +437,11 @@ func c11FlattenOnly(prog []c11Node) (flat []c11Flat, mustReject, amb bool) {
 				} else {
 					flat = append(flat, c11Flat{Method: "POST", Path: prefix + n.Path, IDs: all})
 				}
+			case "combo-toggle-head":
+				base := append(append([]int{}, outer...), ids(n.NH)...)
+				g, h := ids(1), ids(1)
+				flat = append(flat, c11Flat{Method: "GET", Path: prefix + n.Path, IDs: append(append([]int{}, base...), g...)},
+					c11Flat{Method: "HEAD", Path: prefix + n.Path, IDs: append(append([]int{}, base...), h...)})
 			case "combo", "combo-spare", "combo-dup":
 				base := append(append([]int{}, outer...), ids(n.NH)...)
 				g, p := ids(1), ids(1)
@@ -443,7 +461,7 @@ func c11FlattenOnly(prog []c11Node) (flat []c11Flat, mustReject, amb bool) {
 }
 
 func c11Leaves(thorough bool) []c11Node {
-	kinds := []string{"get", "get-headers", "post", "routes-comma", "routes-multi", "any", "combo", "combo-spare", "combo-dup"}
+	kinds := []string{"get", "get-headers", "post", "routes-comma", "routes-multi", "any", "combo", "combo-spare", "combo-dup", "combo-toggle-head"}
 	paths := []string{"/a", "/{x}"}
 	nhs := []int{1}
 	if thorough {
@@ -638,7 +656,7 @@ func c11Run(r *core.Run) {
 	}
 	progs := c11Programs(r.Thorough())
 	paths := c11Paths(r.Thorough())
-	r.Rule = "engine E over registration programs: sequences of leaves {Get, Get(...).Headers(...), Post, Routes(comma list), Routes(several method strings), Any, Combo.Get.Post (also with a spare-capacity caller slice, the same method twice, and separate Combo calls for one path), AutoHead on/off} inside 0..2 levels of Group(prefix, 0..2 handlers); each program is executed through the real grouping API on one Flame and as its flat single-method expansion (concatenated paths and handler-id lists) on a second Flame; every request (5 methods x all paths up to 2-3 segments over the program's literals) must run the same handler ids in the same order with the same parameters; non-trivial = request that runs at least one handler"
+	r.Rule = "engine E over registration programs: sequences of leaves {Get, Get(...).Headers(...), Post, Routes(comma list), Routes(several method strings), Any, Combo.Get.Post (also with a spare-capacity caller slice, the same method twice, separate Combo calls for one path, and GET then - AutoHead switched on in between - HEAD on one Combo), AutoHead on/off} inside 0..2 levels of Group(prefix, 0..2 handlers); each program is executed through the real grouping API on one Flame and as its flat single-method expansion (concatenated paths and handler-id lists) on a second Flame; every request (5 methods x all paths up to 2-3 segments over the program's literals) must run the same handler ids in the same order with the same parameters; non-trivial = request that runs at least one handler"
 	r.Bounds["programs"] = len(progs)
 	r.Bounds["paths"] = len(paths)
 	r.Bounds["methods"] = c11Methods
